@@ -21,6 +21,11 @@ def extra(ctx, res):
     from ._clients import DEGREE, check_filter_clients
 
     cls = "DirectedHypergraph"
+    from .. import rules_container as RC
+
+    res.rules["K-SIDES"] = "DirectedHypergraph.add_edge stores source and target as given: neither side is filtered by membership in the other"
+    with res.guard("RC.check_sides_kept(ctx, res)"):
+        RC.check_sides_kept(ctx, res)
     res.rules["K-ROLE"] = "role-specific queries read only the adjacency table / key component of their own role"
     res.rules["K-BOOL"] = "membership queries return the membership test itself (a bool)"
     # role provenance (frozen pairing, one line of reason each)
